@@ -85,3 +85,15 @@ def values_like_labels(labels, order):
     for i, j in enumerate(order):
         out[i] = labels[j]
     return out
+
+
+def normalise_in_place(a, b):
+    prod = np.einsum('ij,kj->ik', a, b)
+    prod /= np.sqrt(np.einsum('ij,ij->i', a, a)).reshape(-1, 1)
+    return prod
+
+
+def normalise_float(a, b):
+    prod = -0.5 * np.einsum('ij,kj->ik', a, b)
+    prod /= np.sqrt(np.einsum('ij,ij->i', a, a)).reshape(-1, 1)
+    return prod
